@@ -278,3 +278,55 @@ def _err_event(o):
         e = ev('next', -1, o['kind'])
     e['_observed'] = o
     return e
+
+
+# ------------------------------------------------------------------ unrelated library activity between judged calls
+
+def hazard(r):
+    """Perform a little unrelated (and partly refused) library activity in this process.  Nothing here is judged; the
+    point is that the JUDGED calls which follow must not be influenced by it (module-level / class-level state, caches
+    keyed too coarsely, half-finished operations).  Every exception is swallowed."""
+    import copy
+    import decimal
+    from cardutil import iso8583, card, key as keymod, pinblock, config as cfgmod
+    pkg = cfgmod.config['bit_config']
+    pick = r.randrange(12)
+    try:
+        if pick == 0:       # a dumps that is refused part-way
+            iso8583.dumps({'MTI': '1240', 'DE2': '12', 'DE3': 'abcdef', 'DE33': 'x' * 500, 'DE4': 5})
+        elif pick == 1:     # a loads that is refused part-way (several elements flagged, garbage inside)
+            iso8583.loads(b'1240' + bytes([0xf0, 0x10, 0, 1, 0, 0, 0, 0]) + bytes(8) + b'161234567890123456123456zzzz')
+        elif pick == 2:     # another configuration with the same element numbers
+            bc = copy.deepcopy(pkg)
+            bc['48'].pop('field_processor', None)
+            bc['2']['field_processor'] = 'PAN'
+            b = iso8583.dumps({'MTI': '1240', 'DE2': '4444333322221111', 'DE48': 'plain text'}, iso_config=bc)
+            iso8583.loads(b, iso_config=bc)
+        elif pick == 3:     # a blocked writer that is abandoned without being finalised
+            w = mciipm.VbsWriter(io.BytesIO(), blocked=True)
+            w.write(b'abandoned' * 30)
+        elif pick == 4:     # a reader that is abandoned after one record, another that ends in an error
+            data = mciipm.vbs_list_to_bytes([b'one', b'two', b'three'])
+            rd = mciipm.VbsReader(io.BytesIO(data))
+            next(rd)
+            list(mciipm.VbsReader(io.BytesIO(data[:9])))
+        elif pick == 5:     # refused card-number input
+            card.calculate_check_digit('4111 1111\u00b9 1111 111')
+        elif pick == 6:
+            card.validate_check_digit('79927398713')
+            card.validate_check_digit('79927398710')
+        elif pick == 7:     # refused key components / PIN
+            keymod.get_zone_master_key('00' * 16, 'zz' * 16)
+        elif pick == 8:
+            pinblock.calculate_pvv('12x4', '00' * 16, 1, '4000123456789010')
+        elif pick == 9:     # decimal element written and read under a caller-supplied configuration
+            bc = copy.deepcopy(pkg)
+            bc['5']['field_python_type'] = 'decimal'
+            b = iso8583.dumps({'MTI': '1240', 'DE5': decimal.Decimal('12.50')}, iso_config=bc)
+            iso8583.loads(b, iso_config=bc)
+        elif pick == 10:    # inspection of something that is not an IPM file
+            mciipm.ipm_info(io.BytesIO(b'\x00\x00\x00\x10' + b'abcd' + bytes([0x82]) + bytes(40)))
+        else:               # a parameter reader that is refused
+            mciipm.IpmParamReader(io.BytesIO(mciipm.vbs_list_to_bytes([b'no trailer here'])), 'IP0040T1')
+    except BaseException:  # noqa
+        pass
